@@ -130,10 +130,9 @@ def binFor (beg : Int) (end_ : Int) : BitVec 32 :=
 
 /-- `Record.Bin` -/
 def recordBin (r : Record) : Except Fault Nat :=
-  if unmapped r && mateUnmapped r then .ok 4680
-  else match recordEnd r with
-    | .error f => .error f
-    | .ok e => .ok (binFor r.pos e).toNat
+  match recordEnd r with
+  | .error f => .error f
+  | .ok e => .ok (binFor r.pos e).toNat
 
 /-! ### Writer -/
 
@@ -359,7 +358,8 @@ inductive ReadResult where
 
 /-- `newBuffer` followed by the body of `Read`, on the uncompressed byte stream after the header.
 `io.ReadFull` returns `io.EOF` when not a single byte is available and `io.ErrUnexpectedEOF` when some but
-not all are; a zero block size is reported as `io.EOF` too. -/
+not all are; a zero block size is reported as `io.EOF` too.  A stream that ends right after a block size is
+`io.ErrUnexpectedEOF` (newBuffer maps the `io.EOF` of its second ReadFull, repair 74f912f). -/
 def readRecord (om : Omit) (nrefs : Nat) (s : List Byte) : ReadResult :=
   match s with
   | [] => .eof
@@ -367,7 +367,6 @@ def readRecord (om : Omit) (nrefs : Nat) (s : List Byte) : ReadResult :=
     let size := toI32 (getU32 x y z w)
     if size == 0 then .eof
     else if size < 0 then .fault .errBlockSize
-    else if rest.isEmpty then .eof
     else if rest.length < size.toNat then .fault .errUnexpectedEOF
     else match decodeBody om nrefs (rest.take size.toNat) with
       | .error f => .fault f
